@@ -146,10 +146,6 @@ Definition create_policy (st : rst) (k : str) (p : policy) (allow : bool) : rst 
   let st1 := RSt (r_ont st) (<[k := p]> (r_pols st)) (r_roles st) in
   with_ont st1 (define_resource (r_ont st1) (policy_id k)).
 
-(* DeleteManyResources: incoming and outgoing relationships of every id, then the resources *)
-Definition delete_resources (o : ost) (ids : list id) : ost :=
-  fold_left (fun o i => (delete_resource o i).1) ids o.
-
 Definition delete_policies (c : rcfg) (st : rst) (ks : list str) : rst * err :=
   (RSt (if f26 c then delete_resources (r_ont st) (policy_id <$> ks) else r_ont st)
        (foldr delete (r_pols st) ks) (r_roles st), EOk).
